@@ -1114,8 +1114,9 @@ pub fn lexeme_class(s: &str) -> String {
         && s.chars().all(|c| c.is_ascii_hexdigit() || matches!(c, '+' | '-' | '.' | '/'));
     if numberish || (s.contains('/') && s.chars().all(|c| c.is_ascii_hexdigit() || matches!(c, '+' | '-' | '/'))) {
         if let Some((a, b)) = s.split_once('/') {
-            let pa = a.parse::<i128>().ok();
-            let pb = b.parse::<i128>().ok();
+            let num = |t: &str| t.parse::<i128>().ok().or_else(|| i128::from_str_radix(t, 16).ok());
+            let pa = num(a);
+            let pb = num(b);
             let mut f = String::from("ratio");
             if b.starts_with('-') {
                 f.push_str(":neg-denom");
@@ -1165,14 +1166,17 @@ pub fn culprit_window(text: &str, fails: &dyn Fn(&str) -> bool) -> String {
 /// Same, over given token spans (e.g. the scanner's own); when the original
 /// separators hide the failure the window's tokens are joined by one space.
 pub fn culprit_window_spans(text: &str, lx: &[(usize, usize)], fails: &dyn Fn(&str) -> bool) -> String {
-    for w in 1..=3usize {
+    for w in 1..=5usize {
         if lx.len() < w {
             break;
         }
         for i in 0..=lx.len() - w {
             let piece = (i..i + w).map(|j| &text[lx[j].0..lx[j].1]).collect::<Vec<_>>().join(" ");
             if fails(&piece) {
-                return (i..i + w).map(|j| lexeme_class(&text[lx[j].0..lx[j].1])).collect::<Vec<_>>().join(" ");
+                // a run of number prefixes is one feature
+                let mut cls: Vec<String> = (i..i + w).map(|j| lexeme_class(&text[lx[j].0..lx[j].1])).collect();
+                cls.dedup_by(|a, b| a == "numprefix" && b == "numprefix");
+                return cls.join(" ");
             }
         }
     }
@@ -1185,6 +1189,35 @@ pub fn culprit_window_spans(text: &str, lx: &[(usize, usize)], fails: &dyn Fn(&s
             if fails(piece) {
                 return (i..i + w).map(|j| lexeme_class(&text[lx[j].0..lx[j].1])).collect::<Vec<_>>().join(" ");
             }
+        }
+    }
+    // greedy one-at-a-time removal: a 1-minimal set of tokens that still fails
+    if lx.len() <= 64 {
+        let mut keep: Vec<&str> = lx.iter().map(|(a, b)| &text[*a..*b]).collect();
+        if fails(&keep.join(" ")) {
+            let mut i = 0;
+            while i < keep.len() {
+                let mut trial = keep.clone();
+                trial.remove(i);
+                if !trial.is_empty() && fails(&trial.join(" ")) {
+                    keep = trial;
+                } else {
+                    i += 1;
+                }
+            }
+            // a contiguous part of what is left may do (the rest only led the parser there)
+            let mut best: &[&str] = &keep;
+            'outer: for w in 1..keep.len() {
+                for i in 0..=keep.len() - w {
+                    if fails(&keep[i..i + w].join(" ")) {
+                        best = &keep[i..i + w];
+                        break 'outer;
+                    }
+                }
+            }
+            let mut cls: Vec<String> = best.iter().map(|t| lexeme_class(t)).collect();
+            cls.dedup_by(|a, b| a == "numprefix" && b == "numprefix");
+            return cls.join(" ");
         }
     }
     // the approximate lexer may cut differently from the SUT (e.g. `a;b`): whitespace-separated pieces
@@ -1251,6 +1284,9 @@ pub const SOUP_LEXEMES: &[&str] = &[
     "2147483647/2", "-2147483648/3", "-2147483648/-1", "1/-2147483648", "-2147483648/-2147483648", "1/-2", "-1/-1",
     "2147483648/3", "1/4294967296", "1/2/3", "1.2.3", "10..5", "+", "-", "1+", "-a", "+inf", "-nan", "inf", "nan", "1e",
     "1p5", ".e1", "-.", "+.", "1/", "/2", "-/1", "+/-", "99999999999999999999/99999999999999999998",
+    "99999999999999999999/0", "1.8", "1.8p3", "1e99999999999999999999", "1p99999999999999999999", "1e2147483648", "0.1e1",
+    "1.5/2", "1/2.5", "1/1e1", "-9223372036854775808", "-9223372036854775808/-1", "1/-9223372036854775808", "1e-7", "1e+7",
+    "-80000000/-1", "7fffffff/2", "-0", "+0/1", "00012", "1_000",
     // number prefixes
     "#x", "#e", "#i", "#b", "#o", "#d", "#x#e", "#i#b",
     // quotes
